@@ -57,6 +57,10 @@ type Plan struct {
 	SyncZero          bool   `json:"sync_zero,omitempty"`
 	SyncZeroSig       int    `json:"sync_zero_sig,omitempty"`
 	SyncCommitteeSize uint64 `json:"sync_committee_size,omitempty"`
+	// Steady: duty tables repeat with the sync committee period, so that equal period phases see equal duties (C20).
+	Steady bool `json:"steady,omitempty"`
+	// DataStrategy: "" (node 0 directly), "first" or "best": attestation data through the real strategy over all nodes.
+	DataStrategy string `json:"data_strategy,omitempty"`
 }
 
 // Reorg changes a duty-dependent root from the head event of Slot on.
@@ -178,8 +182,15 @@ func (m *Model) AttesterTable(e uint64) *AttTable {
 	return m.attesterTable(e, v)
 }
 
+func (m *Model) dutyKey(e uint64) uint64 {
+	if m.P.Steady {
+		return e % m.P.EpochsPerPeriod
+	}
+	return e
+}
+
 func (m *Model) attesterTable(e uint64, v int) *AttTable {
-	r := &prng{s: h64("att", m.P.Seed, e, v)}
+	r := &prng{s: h64("att", m.P.Seed, m.dutyKey(e), v)}
 	T := m.P.TotalValidators
 	perm := make([]int, T)
 	for i := range perm {
@@ -215,7 +226,7 @@ func (m *Model) attesterTable(e uint64, v int) *AttTable {
 // ProposerTable returns slot -> proposer index for epoch e in force now.
 func (m *Model) ProposerTable(e uint64) map[uint64]int {
 	v := m.verAt(e)
-	r := &prng{s: h64("prop", m.P.Seed, e, v)}
+	r := &prng{s: h64("prop", m.P.Seed, m.dutyKey(e), v)}
 	out := map[uint64]int{}
 	for s := uint64(0); s < m.P.SlotsPerEpoch; s++ {
 		// bias towards our validators so that proposals actually happen
@@ -231,6 +242,9 @@ func (m *Model) ProposerTable(e uint64) map[uint64]int {
 // SyncTable returns validator index -> positions in the sync committee of the period containing epoch e.
 func (m *Model) SyncTable(e uint64) map[int][]phase0.CommitteeIndex {
 	period := e / m.P.EpochsPerPeriod
+	if m.P.Steady {
+		period = 0
+	}
 	r := &prng{s: h64("sync", m.P.Seed, period)}
 	out := map[int][]phase0.CommitteeIndex{}
 	for pos := 0; pos < int(m.Chain.SyncCommitteeSize); pos++ {
